@@ -160,11 +160,13 @@ func (e *Entropy) Read(p []byte) (int, error) {
 		e.bytes.Add(uint64(len(p)))
 		return len(p), nil
 	case EntRepeat:
-		// the same block for every draw; its high-order half is zero so that rejection
-		// samplers (crypto/rand.Int) terminate on the first attempt whatever the modulus
+		// the same block for every draw; its first and last quarters are zero, so that the
+		// value is small whether it is read big-endian (crypto/rand.Int) or little-endian
+		// (fr.Element.SetRandom) and rejection samplers terminate on the first attempt
 		fill(p, e.Key, 1, 1)
-		for i := 0; i < len(p)/2+1 && i < len(p); i++ {
+		for i := 0; i <= len(p)/4 && i < len(p); i++ {
 			p[i] = 0
+			p[len(p)-1-i] = 0
 		}
 		e.bytes.Add(uint64(len(p)))
 		return len(p), nil
